@@ -23,6 +23,23 @@ TOLERANCES = {"rel": 2e-5}
 MIN_DECIDED = {"quick": 2000, "thorough": 40000}
 
 
+def _cube_group():
+    import itertools
+
+    out = []
+    for perm in itertools.permutations(range(3)):
+        for signs in itertools.product((1, -1), repeat=3):
+            m = np.zeros((3, 3))
+            for i, (j, sg) in enumerate(zip(perm, signs)):
+                m[i, j] = sg
+            if np.linalg.det(m) > 0:
+                out.append(Rotation.from_matrix(m).as_quat())
+    return out
+
+
+_CUBE = _cube_group()
+
+
 def cases(tier, seed):
     rng = gen.rng_for(seed, PROP, tier)
     n = 200 if tier == "quick" else 4000
@@ -67,7 +84,11 @@ def run(case):
             j0 = np.array([int(rng.integers(1, n - S - 1)) for n in nb])
             pos.append(((j0 + (S - 1) / 2) * b + (b - 1) / 2) * scale)
         feats = pl.DataFrame({"uid": [100 * t + i for i in range(nm)]})
-        moles.append(Molecules(np.array(pos), Rotation.from_quat(np.tile([0, 0, 0, 1.0], (nm, 1))), features=feats))
+        # orientations: the 24 proper rotations of the cube map the sampling grid of a cubic box onto itself, so
+        # the block-sum relation stays exact while the molecule frame differs from the world frame
+        quats = np.stack([_CUBE[int(rng.integers(0, 24))] if rng.random() < 0.6 else np.array([0, 0, 0, 1.0])
+                          for _ in range(nm)])
+        moles.append(Molecules(np.array(pos), Rotation.from_quat(quats), features=feats))
     mixed = bool(p["dask"] and p["kind"] == "batch" and rng.random() < 0.5)   # numpy and dask images side by side
     imgs = [da.from_array(A, chunks=int(rng.choice([7, 16, 64]))) if (p["dask"] and not (mixed and rng.random() < 0.5))
             else A for A in tomos]
